@@ -98,12 +98,24 @@ P = {
    "§6 C18"),
 }
 
+# in-process sub-checks that tools/fuzz.sh also runs under coverage guidance (DESIGN.md 7.2)
+GD = {
+ "C01": ["render-valid", "flow-valid"], "C03": ["flow-bounds", "commit-monotone", "prerelease-tag-fixed", "prerelease-tag-monotone"],
+ "C04": ["flow-model", "hash-lengths"], "C05": ["bump-model"], "C06": ["render-model", "smart-tier", "smart-tier-abstract"],
+ "C07": ["canon-roundtrip", "canon-semver-u64", "pep-roundtrip", "semver-to-pep-fixed", "out-of-range"], "C08": ["grammar-mutants", "check-report"],
+ "C09": ["spellings", "grammar-mutants", "check-report"], "C10": ["rand-pairs", "rand-triples", "max-tag"], "C11": ["rand-pairs", "rand-triples", "max-tag"],
+ "C12": ["roundtrip", "one-rule-broken", "malformed-documents"], "C13": ["argv-fuzz"],
+ "C15": ["context-vs-renderer", "function-contracts", "template-valued-flags", "literal-context"], "C16": ["rand-unicode", "presets", "template-fn"],
+ "C17": ["rand-instants", "cli-calver"],
+}
 checks, na = [], []
 for pid in sorted(P):
     impl, tech, text, note, ref = P[pid]
     if not impl:
         na.append({"property_id": pid, "reason": "check not built yet in this round (planned: DESIGN.md %s); nothing about this property is claimed" % ref})
         continue
+    if pid in GD:
+        tech += "; thorough tier: coverage-guided libFuzzer campaigns over the same proptest generators and oracles (gen_driven: the fuzzer's input is the generator's random source; sub-checks " + ", ".join(GD[pid]) + ")"
     checks.append({
         "property_id": pid,
         "quick_cmd": f"./check {pid} quick",
@@ -128,7 +140,7 @@ m = {
  },
  "engines": [
    {"name": "zv", "path": "harness/", "serves_properties": [c["property_id"] for c in checks if c["engine"] == "zv"],
-    "kind_free_text": "Rust binary: seeded proptest runner pool (16 workers), exhaustive enumerators, shrinking, replay files, known-finding gate, evidence writer; independent oracles in harness/src/oracle"},
+    "kind_free_text": "Rust library + binary: seeded proptest runner pool (16 workers), exhaustive enumerators, shrinking, replay files, known-finding gate, evidence writer; independent oracles in harness/src/oracle; harness/fuzz holds the libFuzzer targets (7 byte-level targets + gen_driven, which runs any generator-backed sub-check under coverage guidance)"},
    {"name": "c18-hypothesis", "path": "py/c18.py", "serves_properties": ["C18"],
     "kind_free_text": "Python (tooling venv python3-vt): Hypothesis strategies per keyword, differential oracle against the CLI, replay + evidence writer"},
  ],
